@@ -351,8 +351,9 @@ def cli_harness(ctx, cfg):
         import mpilot.cli.mpilot as cli
     lead = ctx.choice('leading_blank_lines', 3)
     lead_kind = ctx.choice('leading_kind', 2)         # completely empty lines or lines holding blanks
-    nl = ['\n', '\r\n'][ctx.choice('nl', 2)]
-    fault = ['missing-result', 'unknown-command', 'undeclared-parameter', 'bad-list-element'][ctx.choice('fault', 4)]
+    nl = ['\n', '\r\n', '\r', 'mixed'][ctx.choice('nl', 4)]         # mixed: line feeds and bare carriage returns alternate
+    prior = ctx.choice('earlier_cli_run', 3)           # what the same process ran before: nothing / a file with a syntax error on line 4 / a file with a load error
+    fault = ['missing-result', 'unknown-command', 'undeclared-parameter', 'bad-list-element', 'dependency-error-without-line'][ctx.choice('fault', 5)]
     gap = ctx.choice('gap', 2)
     lines = [('' if lead_kind == 0 else '   ') for _ in range(lead)]
     exotic = ['', ' page\x0cbreak', ' sep\u2028arator', ' vt\x0b nel\x85'][ctx.choice('exotic_comment', 4)]
@@ -375,13 +376,42 @@ def cli_harness(ctx, cfg):
         lines.append('    D2 = X')
         want = None
     lines.append(')')
+    if fault == 'dependency-error-without-line':
+        # the reader of an EMPTY file fails with an error that has no line of its own; it is run because a LATER command
+        # needs its result: no line, or the reader's line, may be marked - never the later command's
+        empty = os.path.join(P.SCRATCH, 'c11-empty-%d.csv' % os.getpid())
+        open(empty, 'w').close()
+        lines.append('A = EEMSRead(InFileName = "%s", InFieldName = A)' % empty)
+        want = len(lines)
+        lines.append('')
+        lines.append('T = Copy(InFieldName = A)')
     if fault == 'unknown-command':
         lines.append('Z = NoSuchCommand(D = X)')
         want = len(lines)
     lines.append('# end')
     path = os.path.join(P.SCRATCH, 'c11-cli-%d.mpt' % os.getpid())
+
+    def joined(ls):
+        if nl != 'mixed':
+            return nl.join(ls) + nl
+        return ''.join(l_ + ('\n' if i % 2 == 0 else '\r') for i, l_ in enumerate(ls))
+    if prior:
+        ppath = os.path.join(P.SCRATCH, 'c11-cli-prior-%d.mpt' % os.getpid())
+        ptext = ['# earlier model', 'READ(InFileName = a.csv, InFieldName = A)', '', 'B = Node(D = = A)', '# end'] if prior == 1 else ['', '', 'Q = NoSuchCommand()', '']
+        with open(ppath, 'w', newline='', encoding='utf-8') as f:
+            f.write('\n'.join(ptext) + '\n')
+        sink = io.StringIO()
+        old_err = sys.stderr
+        sys.stderr = sink
+        try:
+            try:
+                cli.main.callback('eems-csv', ppath, ('mpvnodes',))
+            except BaseException:       # noqa: B902  (SystemExit of the earlier run)
+                pass
+        finally:
+            sys.stderr = old_err
     with open(path, 'w', newline='', encoding='utf-8') as f:
-        f.write(nl.join(lines) + nl)
+        f.write(joined(lines))
     err, status = io.StringIO(), None
     old_err = sys.stderr
     sys.stderr = err
@@ -400,10 +430,13 @@ def cli_harness(ctx, cfg):
     accept = {lines[want - 1]}
     if fault == 'bad-list-element':
         accept.add(lines[want_alt - 1])     # the argument line or the element line both locate the fault
+    marker_ok = len(marked) == 1 and marked[0] in accept
+    if fault == 'dependency-error-without-line':
+        marker_ok = marker_ok or not marked
     obs = [('the tool reports the fault (status %r)' % (status,), z3.BoolVal(isinstance(status, int) and status != 0)),
-           ('exactly one line is marked and it is the offending line %d (marked: %r)' % (want, marked), z3.BoolVal(len(marked) == 1 and marked[0] in accept))]
+           ('exactly one line is marked and it is the offending line %d%s (marked: %r)' % (want, ' - or none, for an error without a line' if fault == 'dependency-error-without-line' else '', marked), z3.BoolVal(marker_ok))]
     groups = {obs[0][0]: 'cli-status', obs[1][0]: 'cli-marker ' + fault}
-    rec = {'kind': 'cli', 'lines': lines, 'nl': nl, 'want': want, 'marked': marked}
+    rec = {'kind': 'cli', 'lines': lines, 'nl': nl, 'want': want, 'marked': marked, 'earlier_cli_run': prior}
     return {'outcome': fault, 'obligations': obs, 'groups': groups, 'replay': rec, 'validated': True}
 
 
